@@ -343,6 +343,7 @@ def _one(idx: int):
     if idx % _TOOLS_EVERY == 0:
         fails += _tools(c)
     if fails:
+        fails.sort(key=lambda f: bool(BLANK_COLLAPSE.search(f)))  # the known blank-line collapse never hides another failure of the same case
         return True, f"{fails[0]} | input {c.text!r} | {c.label}", nontrivial, idx
     return False, "", nontrivial, idx
 
@@ -394,11 +395,14 @@ def _tools(c: Case) -> list[str]:
     return fails
 
 
+BLANK_COLLAPSE = re.compile(r"bytes between the fences changed: \[\] != written \[''\]")
+
+
 def classify(text: str, c: Case) -> str:
     """witness key: clause | rendering-level features of the case (used by the known-findings file)"""
     feats = []
-    if any(z.lines == [""] for z in c.zones):
-        feats.append("one-blank-line-zone")
+    if any(z.lines == [""] for z in c.zones) and BLANK_COLLAPSE.search(text):
+        feats.append("one-blank-line-collapsed")
     if any(z.bare for z in c.zones):
         sole = all(z.bare and c.before is None and c.after is None for z in c.zones) and len(c.zones) == 1
         feats.append("bare-zone-sole-child" if sole else "bare-zone-with-siblings")
